@@ -994,3 +994,23 @@ func (s *Spec) SetFeatures(f map[string]int64) {
 	sort.Strings(list)
 	s.GovUpgrade.Features = list
 }
+
+// Restart simulates a process restart of the node between blocks: every process-global cache is reset and the
+// application is rebuilt over the same databases (state, block store, tx index); the simulator's own bookkeeping
+// (validator sets, last block id) is kept.
+func (n *Node) Restart() {
+	if n.inBlock {
+		panic("Restart inside a block")
+	}
+	ResetGlobals(n.Spec)
+	app.GenState = BuildGenesis(n.Spec)
+	n.App = app.NewPocketCoreApp(app.GenState, keys.NewInMemory(), stubClient{}, &pocketTypes.HostedBlockchains{M: map[string]pocketTypes.HostedBlockchain{}},
+		log.NewNopLogger(), n.DB, n.Spec.Cache, 5000000, bam.SetPruning(store.PruneNothing))
+	n.BlockStore = tmStore.NewBlockStore(n.BlockDB)
+	n.Indexer = sdk.NewTransactionIndexer(n.TxDB)
+	n.App.SetBlockstore(n.BlockStore)
+	n.App.SetTxIndexer(n.Indexer)
+	if n.App.LastBlockHeight() != n.Height {
+		panic(fmt.Sprintf("restart: application is at height %d, simulator at %d", n.App.LastBlockHeight(), n.Height))
+	}
+}
